@@ -137,6 +137,14 @@ def sample_view(plan):
     return plan
 
 
+def narrow(plan, violation):
+    """An enumeration is reduced to the single failing (park index, fault kind) point."""
+    pt = (violation.get("site") or {}).get("enum_point")
+    if plan.get("mode") == "enum" and pt and not plan.get("only"):
+        return dict(plan, only=list(pt))
+    return None
+
+
 # ---------------------------------------------------------------------------------------------
 
 
